@@ -294,6 +294,20 @@ def replay(d):
         print("replay file names a broken obligation; re-run the check itself")
         return 1
     sc = d["scenario"]
+    if "pair" not in sc and "seed" in sc:
+        # construction-time clause: a default-constructed mineral is valid and reproducible from its seed
+        import pydrex as px
+        fails = []
+        for seed in (int(sc["seed"]), np.int64(int(sc["seed"]))):
+            a, b = px.Mineral(n_grains=40, seed=seed), px.Mineral(n_grains=40, seed=seed)
+            if not (np.array_equal(a.orientations[0], b.orientations[0]) and np.array_equal(a.fractions[0], b.fractions[0])):
+                fails.append(f"default-constructed mineral not reproducible from its seed {seed!r}")
+            fails += ["initial snapshot: " + m for m in MT.snapshot_valid(a.orientations[0], a.fractions[0], 40)]
+            if MT.orthonormality_error(a.orientations[0]) > 1e-12:
+                fails.append("initial orientations not orthonormal")
+        for m in fails:
+            print("still fails:", m)
+        return 1 if fails else 0
     if "pair" not in sc:
         print("replay of a construction-time failure: re-run the check")
         return 1
